@@ -696,7 +696,16 @@ class FlatSeq:
             ln = contrib(Sym(g, int)).len_term()
         self.len_at = lambda t: z3.substitute(ln, (g, t))
         closed = None
-        for X in getattr(it.path, "prefix_functions", []):
+        for X in getattr(it.path, "prefix_closed_forms", []):
+            # closed form supplied by the contract (a Python function of the group index): accepted when it satisfies
+            # the recurrence of the prefix sums, X(0) = 0 and X(g+1) - X(g) = len(contrib(g)) — induction schema
+            with IndexContext(it, g, 0, G):
+                step_ok = it.path.entails_any(ln == X(g + 1) - X(g))
+            if step_ok and it.path.entails_any(X(z3.IntVal(0)) == 0):
+                closed = X
+                it.path.__dict__.setdefault("notes", []).append("prefix sums identified with the contract's closed form")
+                break
+        for X in ([] if closed is not None else getattr(it.path, "prefix_functions", [])):
             if it.path.entails(z3.Implies(z3.And(g >= 0, g < G), ln == X(g + 1) - X(g))) and it.path.entails(X(0) == 0):
                 closed = X
                 break
@@ -1470,6 +1479,14 @@ def _accumulate(it, a, k):
         j = fresh_int("j")
         with IndexContext(it, j, 0, n):
             xj = as_int_term(s.at(Sym(j, int)))
+        if initial is not None:
+            for X in getattr(it.path, "prefix_closed_forms", []):
+                # the contract's closed form of the running sums: accepted when it satisfies the recurrence
+                with IndexContext(it, j, 0, n):
+                    ok = it.path.entails_any(xj == X(j + 1) - X(j))
+                if ok and it.path.entails_any(X(z3.IntVal(0)) == as_int_term(initial)):
+                    it.path.__dict__.setdefault("notes", []).append("running sums identified with the contract's closed form")
+                    return SymSeq(mk_int(n + 1), lambda i, X=X: mk_int(X(as_int_term(i))), list, "accumulate")
         S = z3.Function(fresh_name("acc"), z3.IntSort(), z3.IntSort())
         if initial is not None:
             it.path.add_hyp(S(0) == as_int_term(initial))
